@@ -40,6 +40,11 @@ pub(crate) const BUDDHIST_ERA_IDENTIFIERS: [TinyAsciiStr<19>; 2] =
 pub(crate) const ETHIOPIC_ERA_IDENTIFIERS: [TinyAsciiStr<19>; 2] =
     [era_identifier!("ethiopic"), era_identifier!("incar")];
 
+pub(crate) const ETHIOPIC_INVERSE_ERA_IDENTIFIERS: [TinyAsciiStr<19>; 2] = [
+    era_identifier!("ethiopic-inverse"),
+    era_identifier!("pre-incar"),
+];
+
 pub(crate) const ETHIOPIC_ETHOPICAA_ERA_IDENTIFIERS: [TinyAsciiStr<19>; 3] = [
     era_identifier!("ethioaa"),
     era_identifier!("ethiopic-amete-alem"), // TODO: probably will break?
@@ -126,6 +131,7 @@ pub(crate) const COPTIC_ERA: EraInfo = valid_era!("coptic", 1..=i32::MAX);
 pub(crate) const COPTIC_INVERSE_ERA: EraInfo = valid_era!("coptic-inverse", 1..=i32::MAX);
 pub(crate) const DANGI_ERA: EraInfo = valid_era!("dangi", i32::MIN..=i32::MAX);
 pub(crate) const ETHIOPIC_ERA: EraInfo = valid_era!("ethiopic", 1..=i32::MAX);
+pub(crate) const ETHIOPIC_INVERSE_ERA: EraInfo = valid_era!("ethiopic-inverse", 1..=i32::MAX);
 pub(crate) const ETHIOPIC_ETHIOAA_ERA: EraInfo = valid_era!("ethioaa", i32::MIN..=5500);
 pub(crate) const ETHIOAA_ERA: EraInfo = valid_era!("ethioaa", i32::MIN..=i32::MAX);
 pub(crate) const GREGORY_ERA: EraInfo = valid_era!("ce", 1..=i32::MAX);
